@@ -265,6 +265,26 @@ func SetStdin(b []byte) {
 	os.Stdin = r
 }
 
+// SetStdinLateEOF is SetStdin, except that natively the end of input is held back until ready()
+// reports true (or 3 s have passed): the adversarial schedule for readers that race "all rows
+// delivered" against "end of input seen". Under the engine it is SetStdin (the engine explores the
+// schedules itself).
+func SetStdinLateEOF(b []byte, ready func() bool) {
+	r, w, err := os.Pipe()
+	if err != nil {
+		panic(err)
+	}
+	data := append([]byte(nil), b...)
+	go func() {
+		w.Write(data)
+		for deadline := time.Now().Add(3 * time.Second); !ready() && time.Now().Before(deadline); {
+			time.Sleep(5 * time.Millisecond)
+		}
+		w.Close()
+	}()
+	os.Stdin = r
+}
+
 // ErrStdinRead is the error a failing standard input returns.
 var ErrStdinRead = errors.New("verif: injected stdin read error")
 
@@ -386,9 +406,31 @@ func RunReplay(t TB, harnesses map[string]func()) {
 			fmt.Printf("VREPLAY %d skipped tag=%s (harness %s not in this package)\n", i, v.Tag, v.Harness)
 			continue
 		}
-		outcome, tag := runOne(v, fn)
-		fmt.Printf("VREPLAY %d %s tag=%s\n", i, outcome, tag)
+		// a harness that does not return within the hang timeout is reported as "hang"; the
+		// process cannot go on after that (the blocked goroutines keep the global state)
+		done := make(chan [2]string, 1)
+		go func() {
+			outcome, tag := runOne(v, fn)
+			done <- [2]string{outcome, tag}
+		}()
+		select {
+		case r := <-done:
+			fmt.Printf("VREPLAY %d %s tag=%s\n", i, r[0], r[1])
+		case <-time.After(hangTimeout()):
+			fmt.Printf("VREPLAY %d hang tag=hang\n", i)
+			os.Stdout.Sync()
+			os.Exit(0)
+		}
 	}
+}
+
+func hangTimeout() time.Duration {
+	if s := os.Getenv("VERIF_REPLAY_HANG_S"); s != "" {
+		if d, err := time.ParseDuration(s + "s"); err == nil {
+			return d
+		}
+	}
+	return 30 * time.Second
 }
 
 func runOne(v *vector, fn func()) (outcome, tag string) {
